@@ -271,6 +271,14 @@ class InlineTranslator:
         if sum(map(lambda x: x == hv, collect_ast(stm, "Variable"))) != 2:
             return [stm]
 
+        # a global variable of the aggregate that is not part of the tuple would merge different sums
+        tuple_vars = set(collect_ast(stm.priority, "Variable"))
+        for term in stm.terms:
+            tuple_vars.update(collect_ast(term, "Variable"))
+        agg_globals = global_vars_inside_body(stm.body).intersection(collect_ast(agg, "Variable"))
+        if not tuple_vars.issuperset(agg_globals - {hv}):
+            return [stm]
+
         ### check if tuple set semantic does not allow for unique identification
         replace_terms = [stm.weight, stm.priority] + list(stm.terms)
         if any(
